@@ -165,6 +165,18 @@ ROUND7 = {
 }
 for _k, _v in ROUND7.items():
     CHECKS[_k]["text"] += _v
+ROUND8 = {
+ "C02": " Audit round: C02.fee-counted - the fee of every user-signed type reaches total_fees_new (decided per type); cross-lists C13.fee-deducted.",
+ "C05": " Audit round: C05.height-follows-parent - a block whose parent is known is accepted only with id == parent id + 1; C05.density-anchor now requires the density rule for every block of the new chain.",
+ "C06": " Audit round: known finding C06.tx-hash-coverage|leaf|path (the merkle leaf does not cover routing paths).",
+ "C08": " Audit round: C08.unrouted-types-no-work - block-made types (ATR, Fee, Issuance, SPV), whose paths are never verified, get no routing work.",
+ "C11": " Audit round: C11.peer-assert - no assert!/assert_eq! in a handler-reachable body compares a field of a wire message.",
+ "C13": " Audit round: C13.fee-deducted - a rebroadcast fee booked into total_fees_atr flows into the rebroadcast transaction's outputs.",
+ "C17": " Audit round: cross-lists C11.peer-assert for the handshake handlers.",
+ "C19": " Audit round: C19.ordinal also decides that an input given back on unwind returns under its own (block_id, tx_ordinal).",
+}
+for _k, _v in ROUND8.items():
+    CHECKS[_k]["text"] += _v
 PENDING = "check not built yet in this round (planned in DESIGN.md §4); not claimed until it lands"
 
 def main():
